@@ -10,7 +10,7 @@ from concurrent.futures import ThreadPoolExecutor
 from lib import vf
 
 BASE_YML = """schema:
-  - schema.graphql
+  - "*.graphql"
 exec:
 {exec}
 model:
